@@ -228,14 +228,18 @@ def analyse(st):
 
 
 def known_filter(prop, st, ids):
-    """split oracle failures into (unknown, known) using known_findings.json open entries"""
+    """split oracle failures into (unknown, known) using the open entries of known_findings.json.
+    A failing case is a known finding only if the request matches the entry's `case` regex and
+    EVERY failure part of its oracle line matches the entry's `fail` regex."""
     kf = [e for e in load_json("known_findings.json").get("findings", []) if e["property"] == prop and e["status"] == "open"]
     unknown, known = [], []
     for k in ids:
-        text = st["cases"][k] + " || " + st["oracle"].get(k, "")
+        body = st["cases"][k]
+        msg = st["oracle"].get(k, "")
+        parts = [p_.strip() for p_ in msg[len("FAIL"):].split(" ; ") if p_.strip()]
         hit = None
         for e in kf:
-            if re.search(e["match"], text):
+            if re.search(e["case"], body) and parts and all(re.search(e["fail"], p_) for p_ in parts):
                 hit = e; break
         if hit: known.append((k, hit))
         else: unknown.append(k)
